@@ -61,6 +61,12 @@ class Vocab:
         self.unimod_simple = [e for e in self.unimod_bare if ':' not in e.name]
         self.unimod_colon = [e for e in self.unimod_bare if ':' in e.name]
         self.psimod_mass = [e for e in self.psimod_bare if e.mono is not None]
+        # names that contain words or characters the notation itself uses (a terminus keyword, a comma, '@', '>', a
+        # parenthesis): a few dozen of ~3500, so uniform sampling would hardly ever use one inside a rule
+        import re as _re
+        odd = _re.compile(r'term|,|@|>|<|\(|\)|\?|/|\+|-$', _re.I)
+        self.psimod_odd = [e for e in self.psimod_mass if odd.search(e.name) and ':' not in e.name]
+        self.unimod_odd = [e for e in self.unimod_simple if odd.search(e.name)]
         self.xl_mass = [e for e in self.xlmod if e.mono is not None and writable(e.name)]
         self.excluded_names = (len(self.unimod) - len(self.unimod_bare)) + (len(self.psimod) - len(self.psimod_bare))
 
@@ -101,7 +107,10 @@ def m_float(rng, **_) -> M:
     if rng.random() < 0.04:
         # very small shifts: Python writes them in exponent notation ('1e-05'), the text must still read back as a number
         v, t = rng.choice([(1e-05, '0.00001'), (1e-05, '1e-05'), (-2e-05, '-0.00002'), (1.5e-05, '0.000015'),
-                           (3e-06, '3e-06'), (-2e-05, '-2e-05')])
+                           (3e-06, '3e-06'), (-2e-05, '-2e-05'),
+                           # below 1e-4 AND more than six decimals: nothing may be lost when the value is written back
+                           (1.25e-05, '0.0000125'), (-1.234e-05, '-0.00001234'), (7.31e-07, '0.000000731'),
+                           (4.49e-05, '0.0000449'), (6.468e-05, '6.468e-05'), (-4.25e-05, '-0.0000425')])
         sign = rng.choice(['+', '']) if v > 0 else ''
         return M(f'{sign}{t}', mono=v, avg=v, kind='float-tiny')
     sign = rng.choice(['+', '']) if v > 0 else ''
@@ -121,6 +130,8 @@ def rand_formula(rng, allow_negative=True, max_terms=5) -> (str, dict):
             cnt = rng.randint(1, 9)
             if allow_negative and rng.random() < 0.1:
                 cnt = -cnt
+            if rng.random() < 0.04:
+                cnt = 0     # an absent isotope spelled out ([13C0]), as label-swap templates write it
             parts.append(f'[{sym}{cnt}]' if (cnt != 1 or rng.random() < 0.5) else f'[{sym}]')
         else:
             sym = rng.choice(FORMULA_ELEMENTS[:6] if rng.random() < 0.8 else FORMULA_ELEMENTS)
@@ -149,6 +160,8 @@ def m_unimod_name(rng, context='[]', **_) -> M:
     v = vocab()
     for _i in range(20):
         e = rng.choice(v.unimod_simple if rng.random() < 0.7 else v.unimod_bare)
+        if v.unimod_odd and rng.random() < 0.06:
+            e = rng.choice(v.unimod_odd)
         if writable(e.name, context):
             return _uni(e, e.name, 'unimod-colon-name' if ':' in e.name else 'unimod-name')
     return _uni(v.unimod_simple[0], v.unimod_simple[0].name, 'unimod-name')
@@ -175,6 +188,8 @@ def m_psimod_name(rng, context='[]', need_mass=True, **_) -> M:
     v = vocab()
     for _i in range(30):
         e = rng.choice(v.psimod_mass if need_mass else v.psimod_bare)
+        if v.psimod_odd and rng.random() < 0.08:
+            e = rng.choice(v.psimod_odd)
         if writable(e.name, context) and ':' not in e.name:
             pre = rng.choice(['', 'M:', 'MOD:', 'm:', 'PSI-MOD:'])
             return M(pre + e.name, mono=e.mono, avg=e.avg, comp=e.comp, named=True,
